@@ -7,6 +7,12 @@ class StrSub(str):
     pass
 
 
+class ColourName(str):
+    """a str subclass (as a str-valued Enum member is) whose str() is not the colour name"""
+    def __str__(self):
+        return "ColourName." + str.upper(self)
+
+
 class StrLike(object):
     """not a string, but str() of it spells residues"""
     def __str__(self):
@@ -48,6 +54,31 @@ def eval_ext(toks, state):
     if op == "mk":
         text = real.unhex6(toks[1]) if len(toks) > 1 else ""
         return real.query(SP(text), "seq", [])
+    if op == "mkcwd":
+        # mkcwd <hex raw> <query...>: construct from the raw string while the current directory contains a FILE and a DIRECTORY-free
+        # namesake of that string (and of its upper-cased form)
+        raw = real.unhex6(toks[1])
+        d = _tmp(state)
+        sub = os.path.join(d, "cwd%d" % state.setdefault("ncwd", 0))
+        state["ncwd"] += 1
+        os.makedirs(sub, exist_ok=True)
+        for name in {raw, raw.upper(), raw.strip()}:
+            if name and "/" not in name and "\x00" not in name and len(name) < 200:
+                try:
+                    with open(os.path.join(sub, name), "w") as fh:
+                        fh.write(">x\nGGGGGGGGGG\n")
+                except OSError:
+                    pass
+        old = os.getcwd()
+        os.chdir(sub)
+        try:
+            return real.query(SP(raw), toks[2], toks[3:])
+        finally:
+            os.chdir(old)
+    if op == "backendq":
+        # backendq <hex raw letters> <query...>: SequenceParameters(SeqObj=Sequence(raw)) - the backend upper-cases on its own
+        from localcider.backend.sequence import Sequence
+        return real.query(SP(SeqObj=Sequence(real.unhex6(toks[1]))), toks[2], toks[3:])
     if op == "mkother":
         v = OTHERS[toks[1]]
         return real.query(SP(v() if callable(v) and not isinstance(v, StrLike) else v), "seq", [])
@@ -68,6 +99,24 @@ def eval_ext(toks, state):
                 child, rest = SP(SeqObj=Sequence(seq).swapRes(int(toks[3]), int(toks[4]))), toks[5:]
             elif how == "swapcharge":
                 child, rest = SP(SeqObj=Sequence(seq).swapRandChargeRes()), toks[3:]
+            elif how in ("deepcopy", "pickle", "copybackend", "copy"):
+                # a duplicate of an object on which state was built up first: copy<how> SEQ <pre-call csv|-> query...
+                import copy as _copy, pickle as _pickle
+                parent = SP(seq)
+                for pre in ([] if toks[3] == "-" else toks[3].split(",")):
+                    if pre == "kappa":
+                        parent.get_kappa()
+                    elif pre == "dmaxperm":
+                        parent.get_deltaMax(True)
+                    elif pre == "setphos":
+                        parent.set_phosphosites([i + 1 for i, c in enumerate(seq) if c in "STY"][:3])
+                    elif pre == "linFCR":
+                        parent.get_linear_FCR(2)
+                child = {"deepcopy": lambda: _copy.deepcopy(parent), "pickle": lambda: _pickle.loads(_pickle.dumps(parent)),
+                         "copy": lambda: _copy.copy(parent), "copybackend": lambda: SP(SeqObj=_copy.copy(parent.SeqObj))}[how]()
+                rest = toks[4:]
+                if child.get_phosphosites() != parent.get_phosphosites() and how != "copy":
+                    return ("exc", "Inconsistent", "the duplicate lists phosphosites %r, the original %r" % (child.get_phosphosites(), parent.get_phosphosites()))
             elif how == "shuffle":
                 child, rest = SP(seq).get_shuffled_sequence(), toks[3:]
             elif how in ("frozenshuffle", "kappashuffle"):
@@ -105,6 +154,11 @@ def eval_ext(toks, state):
         return ("none",)
     if op == "o":
         return real.query(objs[toks[1]], toks[2], toks[3:])
+    if op == "copyobj":
+        # copyobj <j> <i>: object j := a facade around copy.copy of object i's backend object
+        import copy as _copy
+        objs[toks[1]] = SP(SeqObj=_copy.copy(objs[toks[2]].SeqObj))
+        return ("none",)
     if op == "shufall":
         # shufall <j> <i>: object j := object i .get_shuffled_sequence(frozen = every position) - same sequence, a NEW object
         n = len(objs[toks[2]])
@@ -113,6 +167,10 @@ def eval_ext(toks, state):
     if op == "setphos":
         vals = [int(x) for x in toks[2:]]
         mode = state.get("phosmode", 0)
+        if mode % 7 == 5 and len(vals) > 1:
+            state["phosmode"] = mode + 1
+            objs[toks[1]].set_phosphosites(iter(vals) if mode % 2 else (v for v in vals))      # positions from a one-shot iterator
+            return ("none",)
         if mode % 4 == 3 and not (len(vals) == 1 and mode % 3 == 0):
             import numpy as np
             vals = [np.int64(v) for v in vals]      # (only inside a list / tuple: the single-position form is documented for a plain int)
@@ -129,7 +187,11 @@ def eval_ext(toks, state):
         objs[toks[1]].clear_phosphosites()
         return ("none",)
     if op == "setpal":
-        objs[toks[1]].set_HTMLColorResiduePalette(real.dict_tok(toks[2]))
+        d = real.dict_tok(toks[2])
+        state["palmode"] = state.get("palmode", 0) + 1
+        if state["palmode"] % 3 == 0:
+            d = dict((k, ColourName(v) if isinstance(v, str) else v) for k, v in d.items())     # values of a str subclass with its own __str__
+        objs[toks[1]].set_HTMLColorResiduePalette(d)
         return ("none",)
     if op == "plot":
         from . import real_plots
